@@ -11,9 +11,53 @@ import numpy as np
 from models import graphs as G
 
 
-# ------------------------------------------------------------------ recipes
+# C06 hooks: arrays handed to constructors are recorded in `_capture`
+# (caller-owned data), grids / data objects are shared through `_share`
+_capture = None
+_share = None
+
+
 def mat(rec):
     """Materialise a recipe into a numpy array (pure function)."""
+    out = _mat(rec)
+    if _capture is not None and out is not None:
+        _capture.append((rec.get("k"), out))
+    return out
+
+
+_share_makers = {}
+
+
+def shared(kind, rec, make):
+    """One object per recipe while sharing is switched on."""
+    if _share is None:
+        return make()
+    key = kind + repr(sorted(rec.items()))
+    if key not in _share:
+        _share[key] = make()
+        _share_makers[key] = make
+    return _share[key]
+
+
+def like(model, first):
+    """Make `model` share grid / data / node count with `first`."""
+    n = first["n"]
+
+    def walk(d):
+        for k, v in d.items():
+            if isinstance(v, dict):
+                if "k" in v and "n" in v:
+                    v["n"] = n
+                walk(v)
+    walk(model)
+    model["n"] = n
+    for f in ("grid", "X"):
+        if f in first and f in model:
+            model[f] = clone(first[f])
+    return model
+
+
+def _mat(rec):
     if rec is None:
         return None
     k = rec["k"]
@@ -34,7 +78,7 @@ def mat(rec):
         np.fill_diagonal(S, 1.0)
         return S
     if k == "res":
-        A = mat(rec["A"])
+        A = _mat(rec["A"])
         return G.sym_matrix(A.shape[0], rec["s"], 0.5, 5.0) * A
     if k == "events":
         r = G.rng_of(rec["s"])
@@ -46,6 +90,10 @@ def mat(rec):
 
 
 def geo_grid(rec):
+    return shared("geogrid", rec, lambda: _geo_grid(rec))
+
+
+def _geo_grid(rec):
     from pyunicorn.core.geo_grid import GeoGrid
     r = G.rng_of(rec["s"])
     n = rec["n"]
@@ -449,6 +497,10 @@ class TsonisSpec(ClimateSpec):
         return m
 
     def data(self, m):
+        return shared("climatedata", {**m["X"], "g": m["grid"]["s"]},
+                      lambda: self._data(m))
+
+    def _data(self, m):
         from pyunicorn.climate.climate_data import ClimateData
         # different data sets carry different names (the durable mutual
         # information cache in the working directory is keyed on the name)
@@ -740,7 +792,9 @@ class SurrSpec(Spec):
                 "normalized": False, "emb": None}
 
     def construct(self, m):
-        X = mat(m["X"]).T.copy()
+        X = _mat(m["X"]).T.copy()
+        if _capture is not None:
+            _capture.append(("surrogates-original-data", X))
         obj = self.cls()(X, silence_level=3)
         return obj
 
